@@ -1965,6 +1965,7 @@ class SampleRandom:
 
     def __init__(self):
         self.calls = 0
+        self.seen_orders: set = set()
 
     def seed(self, *a, **k):
         return None
@@ -1972,8 +1973,9 @@ class SampleRandom:
     def shuffle(self, xs):
         self.calls += 1
         if isinstance(xs, list) and len(xs) > 1:
-            k = self.calls % len(xs) or 1
+            k = self.calls % len(xs)          # every rotation in turn, the identity among them
             xs[:] = xs[k:] + xs[:k]
+            self.seen_orders.add(tuple(map(repr, xs)))
 
     def sample(self, xs, k):
         xs = list(xs)
